@@ -78,3 +78,26 @@ Theorem C16_cut_stream_any : forall c fs cut t s bufs fuel,
   cut_monitor c true fs (N.of_nat cut) (match t with TFail => true | TEOF => false end) (dr_events d) (dr_err d) = true.
 Proof. exact cut_stream_any. Qed.
 Print Assumptions C16_cut_stream_any.
+
+Example C16_cut_stream_nonvacuous :
+  let fs := [mkSF false 0 1 None [97; 98]; mkSF true 0 9 None [1; 2; 3; 4; 5]; mkSF true 0 0 None [99];
+             mkSF true 0 2 None [1; 2; 3]] in
+  let c := mkCfg 2 false 0 false in
+  let run (cut : nat) (t : tail) :=
+    drive (cut + 2) [3] (new_reader (mkSrc (chunk_by [3; 1; 4] (firstn cut (wire fs))) t)
+                                    (c_state c) false (c_check_utf8 c) (c_max c) (c_ext c) CbReadAll) in
+  let done := [mkEv 9 [1; 2; 3; 4; 5] true false; mkEv 1 [97; 98; 99] false false] in
+  sr_out (spec_run c 0 None [] fs) = OClean /\ length (wire fs) = 19%nat /\
+  (* cut inside the payload of the last frame *)
+  dr_events (run 18%nat TEOF) = done /\ dr_err (run 18%nat TEOF) = RIo EUnexpected /\
+  cut_monitor c true fs 18 false (dr_events (run 18%nat TEOF)) (dr_err (run 18%nat TEOF)) = true /\
+  (* the monitor refuses a shortened message, a lost event and a clean end there *)
+  cut_monitor c true fs 18 false (done ++ [mkEv 2 [1; 2] false false]) (RIo EUnexpected) = false /\
+  cut_monitor c true fs 18 false [mkEv 1 [97; 98; 99] false false] (RIo EUnexpected) = false /\
+  cut_monitor c true fs 18 false done (RIo EEOF) = false /\
+  (* cut at the frame boundary before it: clean EOF, but not with a failing transport *)
+  dr_err (run 14%nat TEOF) = RIo EEOF /\ dr_err (run 14%nat TFail) = RIo EFail /\
+  cut_monitor c true fs 14 true done (RIo EEOF) = false /\
+  (* cut inside the message: the ping was delivered, the message was not *)
+  dr_events (run 11%nat TFail) = [mkEv 9 [1; 2; 3; 4; 5] true false] /\ dr_err (run 11%nat TFail) = RIo EFail.
+Proof. vm_compute. repeat split; reflexivity. Qed.
